@@ -51,9 +51,13 @@ HDR = os.path.join(pv.HARNESS, "sysv_tmpdir.h")
 ROOT = os.geteuid() == 0      # a segment created READONLY has mode 0444: only CAP_IPC_OWNER can then attach it READWRITE
 
 
+WRAP = ["open", "close", "stat", "ftok", "unlink", "semget", "semctl", "semop", "shmget", "shmctl", "shmat", "shmdt"]
+
+
 def build(cfg):
     files = [f for f in cfg["sources"] if f not in ("psemaphore-posix.c", "pshm-posix.c")] + ["psemaphore-sysv.c", "pshm-sysv.c"]
-    return pv.build_harness("ipc_sysv", cfg, ["ipc_sysv.c"], repo_files=files, san="asan", extra=["-include", HDR])
+    return pv.build_harness("ipc_sysv", cfg, ["ipc_sysv.c"], repo_files=files, san="asan", extra=["-include", HDR],
+                            link=["-Wl," + ",".join("--wrap=" + w for w in WRAP)])
 
 
 # ---------------------------------------------------------------------------------------------
